@@ -21,6 +21,8 @@ Report(e) ==
         fm == Names(m) \ Names(e.f)
         same == IF e.proc = "prenex"
                 THEN ~QuantInBoolPositionsOnly(e.f) \/ \E b \in Bijections(fc, fm) : ACEq(RenameSyms(e.out, b), m)
+                ELSE IF e.proc = "cnf"
+                THEN Cardinality(fc) > 5 \/ \E b \in Bijections(fc, fm) : ACEq(RenameSyms(e.out, b), m)    \* (5! renamings at most)
                 ELSE ACEq(m, e.out)
     IN  IF same THEN TRUE
         ELSE PrintT(ToJson([id |-> e.id, fail |-> <<"MODEL-DRIFT">>, skip |-> <<>>, wit |-> -1, model |-> m]))
